@@ -40,6 +40,11 @@ type DiskWriter struct {
 	egCtx       context.Context
 	filter      FilterFunc
 	dirModTimes map[string]int64
+
+	// modeMu keeps the "make writable and open" step of a content writer
+	// apart from metadata updates that reach the same inode through another
+	// name (a hard link created while the content is still outstanding).
+	modeMu sync.Mutex
 }
 
 func NewDiskWriter(ctx context.Context, dest string, opt DiskWriterOpt) (*DiskWriter, error) {
@@ -217,7 +222,10 @@ func (dw *DiskWriter) HandleChange(kind ChangeKind, p string, fi os.FileInfo, er
 		}
 	}
 
-	if err := rewriteMetadata(newPath, statCopy); err != nil {
+	dw.modeMu.Lock()
+	err = rewriteMetadata(newPath, statCopy)
+	dw.modeMu.Unlock()
+	if err != nil {
 		return errors.Wrapf(err, "error setting metadata for %s", newPath)
 	}
 
@@ -249,6 +257,7 @@ func (dw *DiskWriter) requestAsyncFileData(p, dest string, fi os.FileInfo, st *t
 	dw.eg.Go(func() error {
 		if err := dw.processChange(dw.egCtx, ChangeKindAdd, p, fi, &lazyFileWriter{
 			dest: dest,
+			mu:   &dw.modeMu,
 		}); err != nil {
 			return err
 		}
@@ -333,10 +342,16 @@ type lazyFileWriter struct {
 	dest     string
 	f        *os.File
 	fileMode *os.FileMode
+	mu       *sync.Mutex
 }
 
 func (lfw *lazyFileWriter) Write(dt []byte) (int, error) {
 	if lfw.f == nil {
+		if lfw.mu != nil {
+			// a read-only file is made writable for the retry below: no
+			// chmod through a hard link of it may come in between
+			lfw.mu.Lock()
+		}
 		file, err := os.OpenFile(lfw.dest, os.O_WRONLY, 0)
 		if os.IsPermission(err) {
 			// retry after chmod
@@ -349,6 +364,9 @@ func (lfw *lazyFileWriter) Write(dt []byte) (int, error) {
 					file, err = os.OpenFile(lfw.dest, os.O_WRONLY, 0)
 				}
 			}
+		}
+		if lfw.mu != nil {
+			lfw.mu.Unlock()
 		}
 		if err != nil {
 			return 0, errors.Wrapf(err, "failed to open %s", lfw.dest)
